@@ -202,7 +202,7 @@ def c18_case(args):
         mod = llsym.Mod()
         llsym.parse_module(open(ll).read(), mod)
         steps = 0
-        tmo = 60000 if tier == "quick" else 300000
+        tmo = 240000 if tier == "quick" else 600000
         reached = set()
 
         for sn, sid, bus in binds:
@@ -471,7 +471,7 @@ def c18_dyn_case(args):
             return res
         res["discharged"] += 1
         snap0, brk0 = dict(m.mem), m.brk
-        tmo = 120000 if tier == "quick" else 600000
+        tmo = 240000 if tier == "quick" else 600000
         reached = set()
 
         def enc_side(spv, which, argp, outp):
